@@ -7,6 +7,7 @@ CONSTANTS
   SameStride = 10
   AttrStride = 40
   TripleStride = 30
+  ValueStride = 120
   ShapeFrom = "named dims"
 CONSTRAINT Export
 INVARIANT ImplRefinesReq
